@@ -12,7 +12,7 @@
 (*                                                                         *)
 (* Prove(v, k) is the query "/1/key" for key k at height v.  Its history   *)
 (* entry lists every mutation of the returned witness / of the claim being *)
-(* verified (Mutations) with the verdict the property demands (exp, see     *)
+(* verified (Mutations) with the verdict the property demands (exp, see    *)
 (* Demands) and the verdict of the verifier model as the code is (asis).   *)
 (***************************************************************************)
 EXTENDS VersionedTree, ProofOps
